@@ -919,4 +919,39 @@ example :
       [.ack, .err .path, .ack, .ack, .ack, .ack, .err .path] := by
   decide +kernel
 
+/-- ... and they are in the domain of `error_isolated_session`, whose conclusion is the run above -/
+example :
+    (sessionEnd sso ⟨true⟩ ro mfs (mitems.map SItem.src)).fs = recvKids ro true mfs [[119], [100]] (sGoods sso mitems) ∧
+    (∃ rs, (sessionEnd sso ⟨true⟩ ro mfs (mitems.map SItem.src)).out.reverse = .ack :: rs ∧ RsI rs 0 2) := by
+  have e102 : sentName sso [102] true = [102] := by decide +kernel
+  have e116 : sentName sso [116] true = [116] := by decide +kernel
+  have e103 : sentName sso [103] true = [103] := by decide +kernel
+  have h := error_isolated_session ro ⟨by decide, by decide⟩ rfl sso ⟨true⟩ rfl rfl mfs [[119], [100]] mitems 100
+    (by decide +kernel) (by decide +kernel) (by decide) (by
+      simp only [mitems, SItemsOk, e102, e116, e103, SItem.path, KidNamesOk, KidListOk, GoodTree, GoodKids]
+      refine ⟨Or.inl (by decide), goodName_single _ (by decide) (by decide) (by decide) (by decide), by decide, by decide,
+        by decide, by decide, ⟨0o755, none, by decide +kernel⟩,
+        Or.inl (by decide), ⟨by decide, trivial, trivial⟩,
+        ⟨goodName_single _ (by decide) (by decide) (by decide) (by decide), by decide, by decide, by decide,
+          ⟨goodName_single _ (by decide) (by decide) (by decide) (by decide), by decide, by decide, by decide, by decide⟩,
+          by simp, trivial⟩, ?_, ?_,
+        Or.inl (by decide), goodName_single _ (by decide) (by decide) (by decide) (by decide), by decide, by decide,
+        by decide, ⟨0o644, none, [90], by decide +kernel⟩, trivial⟩
+      · intro x hx
+        have hl := hx.length_le
+        simp only [List.length_append, List.length_cons, List.length_nil] at hl
+        unfold mfs
+        have h1 : x ≠ [] := by intro e; subst e; simp at hl
+        have h2 : x ≠ [[119]] := by intro e; subst e; simp at hl
+        have h3 : x ≠ [[119], [100]] := by intro e; subst e; simp at hl
+        have h4 : x ≠ [[119], [100], [102]] := by intro e; subst e; simp at hx
+        have h5 : x ≠ [[119], [100], [103]] := by intro e; subst e; simp at hx
+        simp [h1, h2, h3, h4, h5]
+      · intro it hit
+        simp only [List.mem_cons, List.not_mem_nil, or_false] at hit
+        subst hit
+        simp only [SItem.path, e103]
+        decide)
+  exact ⟨h.1, h.2.1⟩
+
 end PdshVerif.Props.C11
